@@ -8,6 +8,9 @@
 #define VP_RT_H
 #include <stdint.h>
 #include <stddef.h>
+#ifndef VP_OBJECT_BITS
+#define VP_OBJECT_BITS 8   /* cbmc --object-bits (default 8): the offset field has 64-8 bits */
+#endif
 #ifdef __cplusplus
 extern "C" {
 #endif
@@ -75,16 +78,21 @@ void vp_clear_exception(void);
 /* signed offset, sign-extended from the offset field: CBMC yields 2^56-1 or 2^64-1 for one-before-the-start depending on whether the
  * expression simplifier or the bit-level encoding evaluates it (both measured) */
 #define VP_POFF(p) (((int64_t)((uint64_t)__CPROVER_POINTER_OFFSET(p) << VP_OBJECT_BITS)) >> VP_OBJECT_BITS)
-/* ptrtoint: clang emits it for pointer DIFFERENCES (sub of two ptrtoint).  CBMC's own pointer->integer cast is not usable for the
- * library's one-before-the-start idiom: the bit-level encoding borrows from the object-number field (measured: base-1 becomes
- * "object-1, offset -1"), while the expression simplifier keeps the object and wraps the 56-bit offset.  The signed offset alone is
- * exact for differences and orderings inside one object in both cases; integers obtained from pointers into DIFFERENT objects are
- * not comparable under this model (the translated code never does that: checked by the native replay of every counterexample). */
-#define VP_PTOI(p) ((uint64_t)VP_POFF(p))
+/* ptrtoint.  Requirements (each one measured on cbmc 6.11, see DESIGN.md 2.2):
+ *  (a) an in-bounds pointer must survive pointer -> integer -> memory -> pointer (std::function keeps captured pointers in integer fields),
+ *      so the value must be CBMC's own bit pattern of the pointer;
+ *  (b) differences must be exact for the library's one-before-the-start idiom (`--cp >= begin`, then `cp - begin + 1`), where CBMC's
+ *      own cast wraps the offset inside its 56-bit field.
+ * Both hold for: bits(start of the object) + signed offset, evaluated through local variables (as ONE expression the simplifier
+ * rewrites it back into the wrapping form). */
+static inline uint64_t vp_ptoi(const void *p) {
+  int64_t o = VP_POFF(p);
+  const char *b = (const char *)p - o;
+  uint64_t bb = (uint64_t)(uintptr_t)b;
+  return bb + (uint64_t)o;
+}
+#define VP_PTOI(p) vp_ptoi(p)
 #define VP_ABORT(m) do { __CPROVER_assert(0, m); __CPROVER_assume(0); } while (0)
-#ifndef VP_OBJECT_BITS
-#define VP_OBJECT_BITS 8   /* cbmc --object-bits (default 8): the offset field has 64-8 bits */
-#endif
 extern uint64_t vp_blk_size[1 << VP_OBJECT_BITS];   /* logical size per CBMC object number */
 #define VP_LOGICAL_SIZE(p) (vp_blk_size[__CPROVER_POINTER_OBJECT(p) & ((1 << VP_OBJECT_BITS) - 1)])
 #define VP_ACCESS_OK(p, s) (!__CPROVER_DYNAMIC_OBJECT(p) || (VP_POFF(p) >= 0 && (uint64_t)VP_POFF(p) + (uint64_t)(s) <= VP_LOGICAL_SIZE(p)))
